@@ -1959,7 +1959,7 @@ def claim_eq(name, a, b, timeout_ms=None):
         ctx.claims.append(res)
         return res
     res = claim(name, SymBool(Cond.poly(p, "==")), timeout_ms=timeout_ms)
-    if res.verdict == "violated" and res.detail == "" and len(d.num) <= 150 and len(a.num) <= 150 and len(b.num) <= 150:
+    if res.verdict == "violated" and res.detail == "" and len(d.num) ** 2 + len(a.num) ** 2 + len(b.num) ** 2 <= 1500000:
         # (only for moderately sized terms: the squared forms below grow quadratically)
         # The solver's first witness may differ from the oracle by less than float64 rounding can resolve (it then cannot
         # be confirmed on the real code).  Ask for a witness where the two sides differ by more than 1e-5 of their size;
